@@ -194,10 +194,22 @@ impl SharedState {
         &mut self,
         term: u64,
     ) {
+        #[cfg(feature = "verif-hooks")]
+        crate::verif::emit(crate::verif::VerifEvent::Term {
+            node: self.node_id,
+            old: self.hard_state.current_term,
+            new: term,
+        });
         self.hard_state.current_term = term;
     }
 
     fn increase_current_term(&mut self) {
+        #[cfg(feature = "verif-hooks")]
+        crate::verif::emit(crate::verif::VerifEvent::Term {
+            node: self.node_id,
+            old: self.hard_state.current_term,
+            new: self.hard_state.current_term + 1,
+        });
         self.hard_state.current_term += 1;
     }
 
@@ -205,6 +217,11 @@ impl SharedState {
         Ok(self.hard_state.voted_for)
     }
     pub fn reset_voted_for(&mut self) -> Result<()> {
+        #[cfg(feature = "verif-hooks")]
+        crate::verif::emit(crate::verif::VerifEvent::VoteReset {
+            node: self.node_id,
+            term: self.hard_state.current_term,
+        });
         self.hard_state.voted_for = None;
         Ok(())
     }
@@ -239,6 +256,14 @@ impl SharedState {
             None => new_vote.committed,
         };
 
+        #[cfg(feature = "verif-hooks")]
+        crate::verif::emit(crate::verif::VerifEvent::Vote {
+            node: self.node_id,
+            term: new_vote.voted_for_term,
+            candidate: new_vote.voted_for_id,
+            committed: new_vote.committed,
+            current_term: self.hard_state.current_term,
+        });
         self.hard_state.voted_for = Some(new_vote);
         Ok(is_new_commit)
     }
